@@ -1095,7 +1095,10 @@ func v11RunTiming(x *vexp.X, tm v11Timing) vexp.Result {
 		}
 		close(started)
 		if tm.during {
-			<-src.began
+			select {
+			case <-src.began:
+			case <-src.RunDoneChan(): // stopped (or ended) before any block began: the requests still have to be answered
+			}
 		}
 		for _, sh := range tm.reqs {
 			err := v11Shape(env, sh)
